@@ -361,7 +361,7 @@ def pool_strategy(draw):
         us = draw(G.utilities(pal, 2, 2, 1, thirds=False))
         p = {"streams": ss, "utilities": us}
         if draw(st.integers(0, 2)) == 0:
-            p["options"] = draw(st.sampled_from([{"DO_VERTICAL_GCC": True}, {"DO_BALANCED_CC": False}, {"DT_CONT": 10.0}, {"DO_AREA_TARGETING": True, "DT_CONT": 5.0}, {"REFRIGERANTS": "ammonia"}, {"REFRIGERANTS": "water,R134a", "DT_CONT": 7.5}, {"UTILITY_PRICE": 99.0, "HTC": 2.0}]))
+            p["options"] = draw(st.sampled_from([{"DO_VERTICAL_GCC": True}, {"DO_BALANCED_CC": False}, {"DT_CONT": 10.0}, {"DO_AREA_TARGETING": True, "DT_CONT": 5.0}, {"REFRIGERANTS": "ammonia"}, {"REFRIGERANTS": "water,R134a", "DT_CONT": 7.5}, {"UTILITY_PRICE": 99.0, "HTC": 2.0}, {"DECIMAL_PLACES": 0}, {"DECIMAL_PLACES": 4, "DT_PHASE_CHANGE": 0.5}, {"T_ENV": 25.0, "DT_ENV_CONT": 5.0, "P_ENV": 95.0}, {"ANNUAL_OP_TIME": 6000, "DISCOUNT_RATE": 0.1, "SERV_LIFE": 10}, {"N_COND": 2, "N_EVAP": 1, "ETA_COMP": 0.6, "HP_LOAD_FRACTION": 0.5}]))
         if all("/" not in z for z in zones) and draw(st.integers(0, 2)) == 0:
             # a user zone tree in its non-canonical spelling (alias types), optionally with a stream labelled with the root name
             alias = draw(st.sampled_from(["Zone", "Process Zone", "Sub-Zone"]))
